@@ -38,4 +38,35 @@ let register (reg : string -> (Sx.t list -> Sx.t) -> unit) =
                                  reopen; Cmds_c10.put_effect e] in
                         go f' r (o :: acc)) in
              L [put_int (List.length tr); L (go None tr [])])
-    | _ -> bad "c11_cuts")
+    | _ -> bad "c11_cuts");
+  (* (c11_cont isz pg limit (prefix total-length) ops): a new writer opens the GIVEN file - the bytes of a cut file
+     as found on disk, sent as its prefix up to the last non-zero byte plus its length - and continues with ops
+     (open_ on the file, then step by step as run_from does); observations as for c10_run *)
+  reg "c11_cont" (fun a -> match a with
+    | [isz; pg; limit; L [prefix; total]; ops] ->
+        let isz = get_n isz and pg = get_n pg and limit = BZ.to_int (get_int limit) in
+        let prefix = get_str prefix and total = BZ.to_int (get_int total) in
+        let rec zeros k acc = if k <= 0 then acc else zeros (k - 1) (N0 :: acc) in
+        let b = prefix @ zeros (total - List.length prefix) [] in
+        let ops = get_list Cmds_c10.get_op ops in
+        let f = Some b in
+        (match open_ isz f with
+         | Err e -> L [L [A "err"; put_exn e]]
+         | Ok (h0, e0) ->
+             (match apply_effects f e0 with
+              | Err e -> L [L [A "err"; put_exn e]]
+              | Ok f0 ->
+                  let first = Cmds_c10.put_world pg limit f0 h0 (A "N") e0 in
+                  let rec go f h ops acc =
+                    match ops with
+                    | [] -> List.rev acc
+                    | o :: r ->
+                        (match step isz (f, h) o with
+                         | Err e -> List.rev (L [A "err"; put_exn e] :: acc)
+                         | Ok ((f', h'), es) ->
+                             let pk = match o, f' with
+                               | ReadV k, Some b -> put_res Cmds_c10.put_value (peek b h' k)
+                               | _ -> A "N" in
+                             go f' h' r (Cmds_c10.put_world pg limit f' h' pk es :: acc)) in
+                  L (go f0 h0 ops [first])))
+    | _ -> bad "c11_cont")
